@@ -143,8 +143,15 @@ func (x *Exec) walkWithInvariant(c *CallCtx, d collDesc, h int, fn *ssa.Function
 	cells := map[int]bool{}
 	x.cellsWrittenBy(st, fn, free, cells, 0)
 	for cnum := range cells {
-		if tv, ok := st.cells[cnum].(TV); ok {
-			st.cells[cnum] = x.freshTV("walkcell", tv.Ty, st)
+		switch cv := st.cells[cnum].(type) {
+		case TV:
+			st.cells[cnum] = x.freshTV("walkcell", cv.Ty, st)
+		case SliceRef:
+			// a variable holding a locally made slice (make + append in the callback): after arbitrarily many
+			// iterations it holds an arbitrary slice value of its type
+			if bt, ok := st.cells[cv.Cell].(TV); ok {
+				st.cells[cnum] = x.freshTV("walkcell", bt.Ty, st)
+			}
 		}
 	}
 	x.bindState = st
